@@ -19,7 +19,7 @@ RULE = ('strictly monotonic coordinates, ascending and descending, 2..7 cells, t
         'left/right None/nan/value; coordinate variables of type float64, float32 and integer; datetime queries (time2idx on an "hours since" coordinate: naive, UTC and +05:30 / -05:00 / +01:00 datetimes); queries include values 2^-30 beside every node/edge; stream "pow2": power-of-two spacings (np.interp exact) with queries at '
         'centres, edges, exact midpoints (ties), interior and outside; stream "margin": arbitrary dyadic '
         'spacings with queries at nodes/edges exactly or at least 1/16 cell away from every decision boundary; '
-        'non-trivial = at least one query strictly inside the domain and not on a node')
+        'non-trivial = at least one query strictly inside the domain and not on a node; datetime look-ups also on \'days since\' coordinates (dyadic day numbers, units coarser than the spacing)')
 ASSUMPTIONS = ['np.interp is exact on the pow2 stream and cannot flip a discrete result on the margin stream',
                'casting NaN to int (clean="none" with left/right=nan) is unspecified and not compared']
 MIN_NONTRIVIAL = {'quick': 50, 'thorough': 500}
